@@ -255,9 +255,32 @@ func verifC14IsMeta(c byte) bool {
 	return vOr(c == '*', c == '?', c == '[', c == ']', c == '{', c == '}', c == '\\')
 }
 
+// verifC14Frames: constant prefix / suffix around the symbolic part.
+var verifC14Frames = [][2]string{
+	{"**/", ""}, {"", "/**"}, {"a/", ""}, {"", "/b"}, {"a/", "/b"}, {"**/", "/b"}, {"!/", "/"}, {"a/**/", ""},
+}
+
 func VerifC14Parse() {
-	n := vRange(0, vParam("maxlen", 4))
-	text := vString(n)
+	// Frame 0 is the fully symbolic text of 0..maxlen bytes.  The other
+	// frames put constant pieces around 0..framelen symbolic bytes so that
+	// multi-component patterns ('**' first / last, inner components, negated
+	// directory-only forms) are reached at small symbolic sizes.
+	frame := 0
+	if nf := vParam("frames", 0); nf > 0 {
+		frame = vChoose(nf + 1)
+	}
+	pre, suf := "", ""
+	n := 0
+	if frame == 0 {
+		n = vRange(0, vParam("maxlen", 4))
+	} else {
+		pre, suf = verifC14Frames[frame-1][0], verifC14Frames[frame-1][1]
+		vNote("frame=" + pre + "<symbolic>" + suf)
+		n = vRange(0, vParam("framelen", 2))
+		vCover("framed")
+	}
+	text := pre + vString(n) + suf
+	n = len(text)
 	ip, err := newIgnorePattern(text)
 	verr := EnsurePatternValid(text)
 	vAssert((err == nil) == (verr == nil), "EnsurePatternValid agrees with the parser")
